@@ -39,7 +39,11 @@ def r4_constants(run, tree):
 
 
 def r5_registry(run, tree):
-    run.rule("C08.R5", "single pint registry (cgs); Units.__call__ contract", "who-may-call + path rule", "", floor=4)
+    run.rule("C08.R5", "single pint registry (cgs, no context enabled); Units.__call__ contract", "who-may-call + path rule", "", floor=4)
+    check_registry(run, tree)
+
+
+def check_registry(run, tree):
     sites = []
     for fi in tree.all_functions():
         for n in walk_no_nested(fi.node):
@@ -74,6 +78,14 @@ def r5_registry(run, tree):
         def define(self, *a, **k):
             self.defined.append((a, k))
 
+        def enable_contexts(self, *names, **k):
+            self.contexts = getattr(self, "contexts", []) + list(names)
+
+        def __getattr__(self, name):
+            if name == "contexts":
+                return []
+            raise Unsupported("pint.UnitRegistry.%s is not in the registry model" % name)
+
         def __call__(self, arg):
             reg = self
 
@@ -98,6 +110,10 @@ def r5_registry(run, tree):
                "applied to %s" % (len(regs), "that registry" if ok else "%d registries" % len(configured)), "M_sun, R_sun, ... undefined")
         run.ob("units/units.py::UnitRegistry-system", len(regs) == 1 and regs[0].kw.get("system") == "cgs", init.where(),
                "registry system = %r" % (regs[0].kw.get("system") if regs else None), "base-unit conversions (to_base_units, G as Gaussian) change meaning")
+        run.ob("units/units.py::UnitRegistry-contexts", len(regs) == 1 and not regs[0].contexts, init.where(),
+               "contexts enabled on the registry: %s" % (regs[0].contexts if regs else None),
+               "a pint context (Gaussian, spectroscopy, ...) adds conversions between units of DIFFERENT dimensions: F -> cm, Hz -> nm succeed, so "
+               "adding or comparing such quantities returns numbers instead of raising")
         call = tree.method(ui, "__call__")
         run.analysed(call)
         cases = [("Quantity", Q(RawTok("q"), U("cm")), "raises TypeError", "units(3*m) silently drops the magnitude"),
